@@ -146,7 +146,8 @@ def run_sym(case, mutant=None, stop_first=False):
             agg["assumptions"].update(env.assumptions)
             agg["mutants_seen"].update(env.mutants_seen)
             agg["features"].update(ctx.features)
-        if stop_first and agg["violations"]:
+        if (stop_first and agg["violations"]) or len(agg["violations"]) >= 8:
+            # enough counterexample candidates for this case (each is replayed on the real code)
             ex.frontier.clear()
 
     t0 = time.time()
